@@ -23,6 +23,7 @@ RULE = (
     "find_essential_* call on a generated model with 2-7 genes and every rule shape; every "
     "row is compared with the exact optimum of the independently knocked-out problem.  "
     "Non-trivial when >=1 row differs from the wild type; distinct by (model hash, arguments)."
+    " References for linear MOMA: FBA vertex, pFBA, or the optimum of a random objective; half of them with their Series in another index order."  # third-session additions
 )
 ASSUMPTIONS = [
     "growth compared with 1e-6*max(1,|q|); essentiality thresholds within 1e-4 relative of an exact growth are borderline-skipped",
